@@ -1,8 +1,9 @@
 (* C11: proofs about the model of reseat_bpm_changes_snap (Timing/Reseat.v).
-   A. list surgery and the one-pass shape of the loop      B. arithmetic of one gap
-   C. termination on the whole domain                      D. the loop equals a structural function `go` under the guard
-   E. `go` meets the strong structural spec                F. strong spec -> boolean oracle, oracle -> Prop spec
-   G. top-level theorems                                   H. refutations (the two known findings) *)
+   A. list surgery and the one-pass shape of the loop      B. arithmetic of one gap (stepq_sem, stepq_term)
+   C. termination on the whole domain (loop_no_fuel)       D. under the guard the loop is a structural function `go`
+   E. `go` meets the strong structural spec (go_spec)      F. strong spec -> boolean oracle; oracle -> Prop spec; consequences
+   G. domain extraction and the top-level theorems         H. refutations (the two known findings)
+   I. lists given in any order                             J. from_bpm_changes_snap(init, l, reseat=True) *)
 From Coq Require Import ZArith QArith Qround Qabs List Bool Lia Lqa.
 From RV Require Import Base.PyNum Timing.Snapper Timing.Snap Timing.TimingMap Timing.Integrate Timing.Domain
   Timing.Reseat Timing.ReseatSpec Timing.ReseatDomain Proofs.SnapperProofs Proofs.TimingProofs Proofs.RederiveProofs.
@@ -1358,3 +1359,190 @@ Proof. intro H. unfold reseat. rewrite reseat_sorts by exact H. apply reseat_ter
 Theorem reseat_correct_any_order l : let ls := sort_by bcs_lt l in
   wf_unseated ls = true -> reseat_guard THRESHOLD ls = true -> exists r, reseat l = ROk r /\ ReseatOK ls r.
 Proof. intros ls H G. unfold reseat. rewrite reseat_sorts by exact H. apply reseat_correct_guarded; assumption. Qed.
+
+(* ================================================================== J. from_bpm_changes_snap(initial_offset, l, reseat=True) *)
+Lemma snap_norm_smet m b met s : snap_norm m b met = Some s -> s_met s = met.
+Proof.
+  unfold snap_norm. destruct (Qlt_bool _ 0 || (_ <? 0)%Z); [discriminate|]. intro H. injection H as <-. reflexivity.
+Qed.
+
+Definition smet_pos (c : bcs) : Prop := 0 < bs_met c /\ 0 < s_met (bs_snap c).
+
+Lemma stepq_smet thr meas bpm met o0 o1 bl ml bq br mq mr : 0 < met ->
+  match stepq thr meas bpm met o0 o1 bl ml bq br mq mr with
+  | SRep c _ _ | SIns c _ _ => smet_pos c
+  | _ => True
+  end.
+Proof.
+  intro Hmet. unfold stepq. cbv zeta.
+  destruct (Qlt_bool 0 mr && Qle_bool mr thr).
+  { destruct (snap_norm (meas + mq - 1) 0 met) as [s|] eqn:E; [|exact I]. apply snap_norm_smet in E.
+    destruct (mq =? 1)%Z; unfold smet_pos; cbn [bs_met bs_snap]; rewrite E; split; exact Hmet. }
+  destruct (Qlt_bool 0 br && Qle_bool br thr).
+  { destruct (Qeq_bool (qmod (inject_Z bq) met) 0) eqn:En; [exact I|].
+    destruct (snap_norm (meas + mq) 0 (qmod (inject_Z bq) met)) as [s|]; [|exact I].
+    assert (P: 0 < Qred (qmod (inject_Z bq) met)).
+    { rewrite Qred_correct. destruct (qfloordiv_mod (inject_Z bq) met Hmet) as [_ [Q0 _]].
+      destruct (Qlt_le_dec 0 (qmod (inject_Z bq) met)) as [L|G]; [exact L|]. exfalso.
+      assert (X: qmod (inject_Z bq) met == 0) by lra. apply Qeq_bool_iff in X. congruence. }
+    destruct (mq =? 0)%Z; unfold smet_pos; cbn [bs_met bs_snap s_met]; split; exact P. }
+  destruct (Qlt_bool thr mr); [|exact I].
+  destruct (snap_norm (meas + mq) 0 met) as [s|] eqn:E; [|exact I]. apply snap_norm_smet in E.
+  destruct (mq =? 0)%Z; unfold smet_pos; cbn [bs_met bs_snap]; rewrite E; split; exact Hmet.
+Qed.
+
+Lemma go_smet thr : forall suf osuf b0 o0 meas, smet_pos b0 -> Forall smet_pos suf ->
+  Forall smet_pos (go thr meas b0 o0 suf osuf).
+Proof.
+  induction suf as [|b1 suf IH]; intros osuf b0 o0 meas H0 Hs; [constructor; [exact H0|constructor]|].
+  destruct osuf as [|o1 osuf]; [constructor; [exact H0|constructor]|]. cbn [go].
+  inversion Hs as [|? ? H1 Hs']; subst.
+  assert (H1': forall m, smet_pos (set_snap b1 m)) by (intro m; exact H1).
+  pose proof (stepq_smet thr meas (bs_bpm b0) (bs_met b0) o0 o1 (beat_len (bs_bpm b0)) (measure_len (bs_bpm b0) (bs_met b0))
+    (Qfloor (q_bd (bs_bpm b0) o0 o1)) (Qred (q_bd (bs_bpm b0) o0 o1 - inject_Z (Qfloor (q_bd (bs_bpm b0) o0 o1))))
+    (Qfloor (q_md (bs_bpm b0) (bs_met b0) o0 o1))
+    (Qred (q_md (bs_bpm b0) (bs_met b0) o0 o1 - inject_Z (Qfloor (q_md (bs_bpm b0) (bs_met b0) o0 o1)))) (proj1 H0)) as P.
+  fold (stepk thr meas (bs_bpm b0) (bs_met b0) o0 o1) in P.
+  destruct (stepk thr meas (bs_bpm b0) (bs_met b0) o0 o1) as [|c off m|c off m|m].
+  - constructor; [exact H0|constructor].
+  - constructor; [exact P|]. apply IH; auto.
+  - constructor; [exact H0|]. constructor; [exact P|]. apply IH; auto.
+  - constructor; [exact H0|]. apply IH; auto.
+Qed.
+
+Lemma snap_norm_zero m b met : (0 <= m)%Z -> 0 < met -> b == 0 ->
+  exists d, snap_norm m b met = Some d /\ s_m d = m /\ s_b d == 0.
+Proof.
+  intros Hm Hmet Hb. unfold snap_norm.
+  assert (Em: (m <? 0)%Z = false) by (apply Z.ltb_ge; exact Hm). rewrite Em.
+  assert (E1: Qlt_bool b 0 = false) by (apply Qlt_bool_false; lra).
+  assert (E2: Qle_bool met b = false) by (apply Qle_bool_false; lra).
+  rewrite E1, E2. cbn [orb fst snd]. rewrite E1, Em. cbn [orb]. eexists. split; [reflexivity|].
+  cbn [s_m s_b]. split; [reflexivity|]. rewrite Qred_correct. exact Hb.
+Qed.
+
+(* the TimingMap built from a seated list has its tempo points at init + (integrated time), bpm and metronome as listed *)
+Definition bco_at (init : Q) (b : bco) (p : Q * bcs) : Prop :=
+  bo_off b == init + fst p /\ bo_bpm b = bs_bpm (snd p) /\ bo_met b = bs_met (snd p).
+
+Lemma from_bcs_go_seated init : forall tl p off t0,
+  off == init + t0 -> s_b (bs_snap p) == 0 -> 0 < s_met (bs_snap p) -> incr_from (s_m (bs_snap p)) tl ->
+  Forall smet_pos tl ->
+  exists brest, from_bcs_go off p tl = Some brest /\ Forall2 (bco_at init) brest (combine (change_times_go t0 p tl) tl).
+Proof.
+  induction tl as [|c tl IH]; intros p off t0 Eo Hb Hm Hi Hs; [exists []; split; [reflexivity|constructor]|].
+  destruct Hi as (I1 & I2 & I3). inversion Hs as [|? ? Hc Hs']; subst. cbn [from_bcs_go change_times_go combine].
+  assert (Eb: s_b (bs_snap c) - s_b (bs_snap p) == 0) by (rewrite I2, Hb; ring).
+  destruct (snap_norm_zero (s_m (bs_snap c) - s_m (bs_snap p)) _ _ ltac:(lia) Hm Eb) as (d & Ed & D1 & D2).
+  unfold snap_sub. rewrite Ed.
+  set (off' := Qred (off + snap_offset d (bs_bpm p) (bs_met p))).
+  set (t1 := t0 + beat_len (bs_bpm p) * seg_beats (bs_met p) (bs_snap p) (bs_snap c)).
+  assert (E1: off' == init + t1).
+  { unfold off', t1. rewrite Qred_correct. unfold snap_offset, measure_len, seg_beats. rewrite D1, D2, Eo, I2, Hb. ring. }
+  destruct (IH c off' t1 E1 I2 (proj2 Hc) I3 Hs') as (brest & R1 & R2). rewrite R1.
+  eexists. split; [reflexivity|]. constructor; [|exact R2]. unfold bco_at. cbn [bo_off bo_bpm bo_met fst snd]. auto.
+Qed.
+
+Lemma incr_from_adj_ok : forall tl p, incr_from (s_m (bs_snap p)) tl -> adj_ok bcs_lt (p :: tl).
+Proof.
+  induction tl as [|c tl IH]; intros p H; [exact I|]. destruct H as (H1 & H2 & H3). cbn [adj_ok].
+  split; [|apply IH; exact H3]. unfold bcs_lt, snap_lt.
+  assert (A: (s_m (bs_snap c) <? s_m (bs_snap p))%Z = false) by (apply Z.ltb_ge; lia).
+  assert (B: (s_m (bs_snap c) =? s_m (bs_snap p))%Z = false) by (apply Z.eqb_neq; lia).
+  rewrite A, B. reflexivity.
+Qed.
+
+Lemma from_bcs_seated init r : SeatedP r -> Forall smet_pos r ->
+  exists bcos, from_bcs init r = Some bcos /\ Forall2 (bco_at init) bcos (timeline 0 r).
+Proof.
+  intros (h & tl & -> & H1 & H2 & H3) Hs. inversion Hs as [|? ? Hh Hs']; subst.
+  unfold from_bcs. rewrite sort_by_adj_ok by (apply incr_from_adj_ok; rewrite H1; exact H3).
+  apply Z.eqb_eq in H1. pose proof H2 as H2'. apply Qeq_bool_iff in H2'. rewrite H1, H2'. cbn [andb negb].
+  apply Z.eqb_eq in H1.
+  destruct (from_bcs_go_seated init tl h init 0 ltac:(ring) H2 (proj2 Hh) ltac:(rewrite H1; exact H3) Hs') as (brest & R1 & R2).
+  rewrite R1. eexists. split; [reflexivity|]. unfold timeline. cbn [change_times combine].
+  constructor; [|exact R2]. unfold bco_at. cbn [bo_off bo_bpm bo_met fst snd]. split; [ring|auto].
+Qed.
+
+Lemma wfP_smet met prev rest : 0 < met -> wfP_go met prev rest -> Forall smet_pos rest.
+Proof.
+  intros Hm. revert prev. induction rest as [|c rest IH]; intros prev H; [constructor|].
+  destruct H as (H1 & H2 & H3 & H4 & H5 & H6 & H7). constructor; [|apply (IH _ H7)].
+  split; [rewrite H3|rewrite H4]; exact Hm.
+Qed.
+
+Theorem reseat_smet thr l : 0 <= thr -> wf_unseated l = true -> reseat_guard thr l = true ->
+  exists r, reseat_with thr l = ROk r /\ Forall smet_pos r.
+Proof.
+  intros Hthr H Hg. destruct (wf_unseated_P l H) as (c0 & rest0 & E0 & _ & _ & _ & _ & W5 & W6 & W7).
+  destruct (wf_prepare l H) as (c & rest & offs & -> & Es & Eo & Ok & Inc & Hc & Hrest & Hm & Hb).
+  injection E0 as <- <-.
+  unfold reseat_with. rewrite Es, Eo.
+  destruct (go_spec thr Hthr rest offs c c 0 0%Z eq_refl eq_refl Hm Hb ltac:(lia) Hc Hrest Ok Inc Hg) as [G _].
+  exists (go thr 0 c 0 rest offs). split.
+  - apply (loop_go thr rest offs [] [] c 0 0%Z); auto. cbn [length]. lia.
+  - assert (Hmet: 0 < bs_met c) by lra.
+    apply go_smet; [split; [exact Hmet|rewrite W6; exact Hmet]|apply (wfP_smet (bs_met c) (bs_snap c)); assumption].
+Qed.
+
+Lemma existsb_negb_false {A} (f : A -> bool) l : existsb (fun x => negb (f x)) l = false -> forallb f l = true.
+Proof.
+  induction l as [|x l IH]; [reflexivity|]. cbn [existsb forallb]. intro H. apply orb_false_iff in H. destruct H as [H1 H2].
+  apply negb_false_iff in H1. rewrite H1, (IH H2). reflexivity.
+Qed.
+
+Lemma wfP_measures met : forall rest prev, s_b prev == 0 -> wfP_go met prev rest ->
+  forallb (fun c => Qeq_bool (s_b (bs_snap c)) 0) rest = true -> measures_increasing (s_m prev) rest = true.
+Proof.
+  induction rest as [|c rest IH]; intros prev Hp H Hs; [reflexivity|]. destruct H as (H1 & _ & _ & _ & _ & _ & H7).
+  cbn [forallb] in Hs. apply andb_true_iff in Hs. destruct Hs as [S1 S2]. apply Qeq_bool_iff in S1.
+  cbn [measures_increasing]. rewrite (IH (bs_snap c) S1 H7 S2), andb_true_r. apply Z.ltb_lt.
+  destruct H1 as [L|[_ L]]; [exact L|lra].
+Qed.
+Lemma wf_seated l : wf_unseated l = true -> forallb (fun c => Qeq_bool (s_b (bs_snap c)) 0) l = true -> seated l = true.
+Proof.
+  intros H Hs. destruct (wf_unseated_P l H) as (c & rest & -> & H1 & H2 & _ & _ & _ & _ & H7).
+  unfold seated. rewrite Hs. cbn [andb]. apply Z.eqb_eq in H1. rewrite H1. cbn [andb].
+  cbn [forallb] in Hs. apply andb_true_iff in Hs. destruct Hs as [_ Hs]. apply Z.eqb_eq in H1. rewrite <- H1.
+  apply (wfP_measures (bs_met c)); assumption.
+Qed.
+
+Lemma forall2_comp {A B C} (R1 : A -> B -> Prop) (R2 : B -> C -> Prop) (R3 : A -> C -> Prop) :
+  (forall a b c, R1 a b -> R2 b c -> R3 a c) -> forall la lb lc, Forall2 R1 la lb -> Forall2 R2 lb lc -> Forall2 R3 la lc.
+Proof.
+  intros H la lb lc F1. revert lc. induction F1 as [|a b la lb Hab F1 IH]; intros lc F2; inversion F2; subst; constructor; eauto.
+Qed.
+
+Lemma forall2_refl {A} (R : A -> A -> Prop) : (forall a, R a a) -> forall l, Forall2 R l l.
+Proof. intros H l. induction l; constructor; auto. Qed.
+
+(* the TimingMap built with reseat=True: its tempo points are at init + times r with r's bpms, r = the reseated list *)
+
+Theorem from_bcs_reseat_correct init l : wf_unseated l = true -> reseat_guard THRESHOLD l = true ->
+  exists r bcos, reseat l = ROk r /\ ReseatOK l r /\ from_bcs_reseat init l = Some bcos /\
+                 Forall2 (bco_near init) bcos (timeline 0 r).
+Proof.
+  intros H Hg. destruct (reseat_correct_guarded l H Hg) as (r & Er & OK).
+  assert (Hthr: 0 <= THRESHOLD) by (unfold THRESHOLD; lra).
+  destruct (reseat_smet THRESHOLD l Hthr H Hg) as (r' & Er' & Sm). unfold reseat in Er. rewrite Er in Er'. injection Er' as <-.
+  destruct (wf_prepare l H) as (c & rest & offs & El & Es & _ & _ & _ & _ & _ & Hm & Hb).
+  destruct (wf_unseated_P l H) as (c0 & rest0 & E0 & _ & _ & _ & _ & W5 & W6 & W7). rewrite El in E0. injection E0 as <- <-.
+  assert (Hmet: 0 < bs_met c) by lra.
+  unfold from_bcs_reseat. rewrite Es. rewrite El. rewrite <- El.
+  apply Z.eqb_eq in Hm. pose proof Hb as Hb'. apply Qeq_bool_iff in Hb'. rewrite Hm, Hb'. cbn [andb negb].
+  destruct (existsb (fun c1 => negb (Qeq_bool (s_b (bs_snap c1)) 0)) l) eqn:Ex.
+  - unfold reseat. rewrite Er. destruct OK as ((HS & HR) & OK').
+    destruct (from_bcs_seated init r HS Sm) as (bcos & B1 & B2).
+    exists r, bcos. split; [reflexivity|]. split; [split; [split|]; assumption|]. split; [exact B1|].
+    eapply forall2_comp; [|exact B2|apply (forall2_refl (fun p q : Q * bcs => fst p == fst q /\ bs_bpm (snd p) == bs_bpm (snd q)));
+                                     intro a; split; reflexivity].
+    intros a b c1 (A1 & A2 & A3) (C1 & C2). split; [rewrite A1, C1; reflexivity|rewrite A2; exact C2].
+  - apply existsb_negb_false in Ex. pose proof (wf_seated l H Ex) as Hseat.
+    assert (Sl: Forall smet_pos l).
+    { rewrite El. constructor; [split; [exact Hmet|rewrite W6; exact Hmet]|apply (wfP_smet (bs_met c) (bs_snap c)); assumption]. }
+    destruct (from_bcs_seated init l (seated_b_P l Hseat) Sl) as (bcos & B1 & B2).
+    exists r, bcos. split; [exact Er|]. split; [exact OK|]. split; [exact B1|].
+    destruct OK as (_ & _ & (_ & _ & _ & _ & HF) & _). specialize (HF Hseat).
+    eapply forall2_comp; [|exact B2|exact HF].
+    intros a b c1 (A1 & A2 & A3) (C1 & C2). split; [rewrite A1, C1; reflexivity|rewrite A2; exact C2].
+Qed.
